@@ -122,10 +122,73 @@ def _worker_chunk(args):
 # --------------------------------------------------------------------------- #
 # shrinking
 # --------------------------------------------------------------------------- #
-def _same_class(engine, case, vclass):
+class _IsoResult:
+    def __init__(self, d):
+        self.violations = d.get("violations", [])
+        self.digest = d.get("digest")
+        self.events = d.get("events")
+
+
+def _exec_isolated(engine, case, timeout=300):
+    """Execute one case in a forked child, so that whatever the code under test leaves behind in process-global
+    state (class-level caches, module variables, singletons) cannot leak from one candidate execution into the next:
+    every execution starts from the parent's pristine state, exactly like the fresh-interpreter replay will."""
+    import pickle
+    import select
+
+    r, w = os.pipe()
+    pid = os.fork()
+    if pid == 0:  # child
+        code = 0
+        try:
+            os.close(r)
+            try:
+                res = engine.execute(copy.deepcopy(case))
+                payload = {"violations": res.violations, "digest": res.digest, "events": res.events}
+            except BaseException as e:  # noqa
+                payload = {"error": "%s: %s" % (type(e).__name__, e)}
+            with os.fdopen(w, "wb") as f:
+                pickle.dump(payload, f)
+        except BaseException:  # noqa
+            code = 3
+        finally:
+            os._exit(code)
+    os.close(w)
+    data = b""
+    t_end = real_time() + timeout
     try:
-        res = engine.execute(copy.deepcopy(case))
+        while True:
+            left = t_end - real_time()
+            if left <= 0:
+                break
+            ready, _, _ = select.select([r], [], [], min(left, 5.0))
+            if ready:
+                chunk = os.read(r, 1 << 16)
+                if not chunk:
+                    break
+                data += chunk
+    finally:
+        os.close(r)
+        try:
+            if real_time() >= t_end:
+                os.kill(pid, 9)
+            os.waitpid(pid, 0)
+        except Exception:
+            pass
+    if not data:
+        return None
+    try:
+        d = pickle.loads(data)
     except Exception:
+        return None
+    if "error" in d:
+        return None
+    return _IsoResult(d)
+
+
+def _same_class(engine, case, vclass):
+    res = _exec_isolated(engine, case)
+    if res is None:
         return None
     for v in res.violations:
         if v["class"] == vclass:
@@ -379,10 +442,20 @@ def run_check(engine_cls, tier, base_seed, jobs=None, runs=None, budget_s=None, 
         seen_classes.setdefault(v["class"], []).append(r)
     os.makedirs(os.path.join(OUT, "replays", engine.PROPERTY), exist_ok=True)
     n_rep = 0
+    leaked = []
     for vclass, rs in sorted(seen_classes.items()):
-        r = rs[0]
         n_rep += 1
         if n_rep > 4:  # enough distinct classes shrunk; still counted below
+            continue
+        # a run may have tripped only because an earlier run of the same worker left process-global state behind;
+        # pick a run of this class that reproduces on its own (every candidate execution is isolated in a forked child)
+        r = None
+        for cand in rs[:6]:
+            if _same_class(engine, cand["case"], vclass) is not None:
+                r = cand
+                break
+        if r is None:
+            leaked.append((vclass, rs[0]["seed"], len(rs)))
             continue
         small = shrink(engine, r["case"], vclass)
         # the shrunk case may now match a known finding
@@ -414,6 +487,9 @@ def run_check(engine_cls, tier, base_seed, jobs=None, runs=None, budget_s=None, 
         else:
             harness_errors.append("replay of %s did not reproduce in a fresh interpreter:\n%s" % (path, out[-2000:]))
 
+    for vclass, seed, n in leaked:
+        harness_errors.append("violation class %s (%d runs, e.g. seed %d) appears only when runs share a process: the code under test keeps "
+                              "process-global state between runs, but no single run reproduces it in isolation" % (vclass, n, seed))
     wall = real_time() - t_start
     n_eval = len(done)
     samples = [r["case"] for r in ordered if "case" in r and not r.get("violations")][:2]
